@@ -56,6 +56,15 @@ theorem tri3FootFixed_along : FootAlongNormal tri3FootFixed := by
   refine ⟨σ, ?_⟩
   apply V3.eq_of <;> ring
 
+set_option linter.unreachableTactic false in
+/-- whichever of the two foots the model of /repo currently uses -/
+theorem tri3FootRepo_along : FootAlongNormal tri3FootRepo := by
+  intro p0 p1 p2 x
+  unfold tri3FootRepo
+  first
+    | exact tri3Foot_along p0 p1 p2 x
+    | exact tri3FootFixed_along p0 p1 p2 x
+
 /-- the numerators are blind to the normal component of the foot -/
 theorem baryR_shift (p0 p1 p2 x : V3 ℝ) (σ : ℝ) :
     baryR p0 p1 p2 (shiftN x σ (nrm p0 p1 p2)) = baryR p0 p1 p2 x := by
